@@ -246,7 +246,9 @@ func init() {
 		f := fr.fileOf(args[0])
 		p := args[1].([]value)
 		if f.stream != nil {
-			return docStreamRead(fr, []value{f.stream, p})
+			// the DocStream's own (interpreted) Read
+			ds := iface{types.NewPointer(fr.i.prog.ImportedPackage(VHPath).Type("DocStream").Type()), f.stream}
+			return callMethod(fr, ds, "Read", p)
 		}
 		if f.text == nil {
 			return tuple{0, mkError(fr, "read "+f.name+": bad file descriptor")}
